@@ -24,7 +24,7 @@ class FnContract:
 
     def __init__(self, qualname, params=(), defaults=None, pre=None, post=None,
                  mod_fields=(), mod_ghost=(), mod_args=(), result=None,
-                 raises=None, loops=None, note=''):
+                 raises=None, loops=None, note='', loop_ghost=()):
         self.qualname = qualname
         self.params = list(params)
         self.defaults = dict(defaults or {})
@@ -33,6 +33,9 @@ class FnContract:
         self.mod_fields = tuple(mod_fields)
         self.mod_ghost = tuple(mod_ghost)
         self.mod_args = tuple(mod_args)
+        # ghost locations updated precisely by `result` (not havoced at a call
+        # site) that still belong to the modifies set of an enclosing loop
+        self.loop_ghost = tuple(loop_ghost)
         self.result = result or (lambda ex, st, V: None)
         self.raises = raises
         self.loops = loops or {}
@@ -150,7 +153,7 @@ class Registry:
         for f in c.mod_fields:
             if f not in eff['fields']:
                 eff['fields'].append(f)
-        for g in c.mod_ghost:
+        for g in tuple(c.mod_ghost) + tuple(c.loop_ghost):
             if g not in eff['ghost']:
                 eff['ghost'].append(g)
         for a in c.mod_args:
